@@ -179,6 +179,53 @@ Example stays_in_bounds_nonvacuous :
   0 < (1#4) /\ in_bounds (Fin 0) (Fin 1) 0 /\ wide (Fin 0) (Fin 1) 4 (1#4).
 Proof. unfold in_bounds, wide; repeat split; try lra; discriminate. Qed.
 
+(** ** 5a. the guard.  [guard] is the assertion `x inside bounds` of derivative, translated
+       from the source: the code refuses (AssertionError, before any evaluation of f) exactly
+       the x outside [lb, ub]; so for EVERY x -- no in-bounds hypothesis -- a call either is
+       refused or evaluates f inside the bounds only. *)
+Lemma guard_iff x lb ub : guard x lb ub = true <-> in_bounds lb ub x.
+Proof.
+  unfold guard, le_b, ge_b, gt_b, lt_b, in_bounds.
+  destruct lb as [| |l]; destruct ub as [| |u]; cbn [negb];
+    rewrite ?andb_true_iff, ?negb_true_iff, ?qlt_false;
+    intuition (try discriminate; try reflexivity; auto).
+Qed.
+
+Definition guarded_points (posT : list (list Q)) (order : Z) (x dx : Q) (lb ub : bound) :=
+  if guard x lb ub then eval_points offset posT order x dx lb ub else None.
+
+Definition refused_or_inside (posT : list (list Q)) (order : Z) (K : Q) : Prop :=
+  forall x dx lb ub, 0 < dx -> wide lb ub K dx ->
+    match guarded_points posT order x dx lb ub with
+    | Some pts => in_bounds lb ub x /\ Forall (in_bounds lb ub) pts
+    | None => ~ in_bounds lb ub x
+    end.
+
+Lemma refused_of posT order K : points_ok posT order K -> refused_or_inside posT order K.
+Proof.
+  intros HP x dx lb ub Hdx Hw. unfold guarded_points.
+  destruct (guard x lb ub) eqn:G.
+  - apply guard_iff in G. specialize (HP x dx lb ub Hdx G Hw).
+    destruct (eval_points offset posT order x dx lb ub); [split; assumption|contradiction].
+  - intro Hin. apply guard_iff in Hin. congruence.
+Qed.
+
+Theorem rejected_or_in_bounds :
+  (forall x lb ub, guard x lb ub = true <-> in_bounds lb ub x) /\
+  refused_or_inside FIRST_DERIV_POS_2 2 2 /\ refused_or_inside SECOND_DERIV_POS_2 2 3 /\
+  refused_or_inside FIRST_DERIV_POS_4 4 4 /\ refused_or_inside SECOND_DERIV_POS_4 4 5.
+Proof.
+  split; [exact guard_iff|].
+  exact (conj (refused_of _ _ _ points_first2) (conj (refused_of _ _ _ points_second2)
+        (conj (refused_of _ _ _ points_first4) (refused_of _ _ _ points_second4)))).
+Qed.
+Print Assumptions rejected_or_in_bounds.
+
+(** both outcomes occur: x = -1/10^10 with bounds (0, +inf) is refused, x = 0 is accepted *)
+Example guard_instances :
+  guard (-(1 # 10000000000)) (Fin 0) PosInf = false /\ guard 0 (Fin 0) PosInf = true.
+Proof. split; vm_compute; reflexivity. Qed.
+
 (** ** 5b. which row is used, as a function of the distances to the bounds (interior: the
        central row 0; less than one step from the lower/upper bound: the fully one-sided row
        +1/-1 (order 2) or +2/-2 (order 4); between one and two steps (order 4): +1/-1).
@@ -433,9 +480,12 @@ Proof.
 Qed.
 
 (** derivT never evaluates the potential at T < 0, for every admissible T (including T = 0
-    and T within two steps of 0) and every step dT > 0, and returns the exact T-derivative
+    and T within two steps of 0) and every step dT > 0 -- an ASSUMPTION: the step is
+    temperatureVariationScale * effectivePotentialError^(1/5) and nothing in the code makes the
+    scale positive; with a negative scale derivT(T=0) evaluates at T < 0 on the unchanged
+    tree (logged by the check as an observation, outside the quantifier) -- and returns the exact T-derivative
     of potentials polynomial in T of degree <= #points - 1. *)
-Theorem derivT_bound :
+Theorem derivT_bound_positive_step :
   forall (a : list Q) T dT, in_bounds derivT_lb derivT_ub T -> 0 < dT ->
     (length a <= npts_of derivT_n derivT_order)%nat ->
     exists pts v,
@@ -454,9 +504,9 @@ Proof.
   eapply Forall_impl; [|exact Hb].
   intros t [Ht _]. unfold derivT_lb in Ht. lra.
 Qed.
-Print Assumptions derivT_bound.
+Print Assumptions derivT_bound_positive_step.
 
-(** the hypotheses of [derivT_bound] are satisfiable at the bound itself *)
+(** the hypotheses of [derivT_bound_positive_step] are satisfiable at the bound itself *)
 Example derivT_bound_nonvacuous :
   in_bounds derivT_lb derivT_ub 0 /\ (0 < npts_of derivT_n derivT_order)%nat /\
   posT_of derivT_n derivT_order <> [].
